@@ -213,6 +213,39 @@ def flat_guards(node, stop=None):
     out = []
     for t, p in guards(node, stop):
         out.extend(flatten_guard(t, p))
+    return _unit_propagate(out)
+
+
+def _unit_propagate(leaves):
+    """`not (a and b)` together with `a` gives `not b`; `(a or b)` together with `not a` gives `b` (the `elif a:` after
+    `if a and b:` case).  Derived leaves are appended; the compound guard stays in the list."""
+    out = list(leaves)
+    for _ in range(3):
+        known = {(src(t), p) for t, p in out}
+        added = False
+        for t, p in list(out):
+            if not isinstance(t, ast.BoolOp):
+                continue
+            if isinstance(t.op, ast.And) and not p:
+                want = True       # clause: some conjunct is false
+            elif isinstance(t.op, ast.Or) and p:
+                want = False      # clause: some disjunct is true
+            else:
+                continue
+            rest = []
+            for v in t.values:
+                lv = flatten_guard(v, want)
+                if all((src(a), b) in known for a, b in lv):
+                    continue                      # this literal is known to fail the clause
+                rest.append(v)
+            if len(rest) == 1:
+                for a, b in flatten_guard(rest[0], not want):
+                    if (src(a), b) not in known:
+                        out.append((a, b))
+                        known.add((src(a), b))
+                        added = True
+        if not added:
+            break
     return out
 
 
